@@ -40,7 +40,7 @@ def it(a):
 # ----------------------------------------------------------------------------- CP / Tucker regressors
 def draw_reg(c, seed):
     xs, ys, n = tuple(c["xs"]), tuple(c["ys"]), c["n"]
-    rng = _rng(seed, 30, c["model"] == "cp", n, c["rank"], c["reg"], c["k"], len(ys), *xs)
+    rng = _rng(seed, 30, c["model"] == "cp", n, c["rank"], c["reg"], c["k"], REGOPT[c["opt"]][2], len(ys), *xs)
     X = rng.integers(-3, 4, size=(n,) + xs).astype(float)
     Wtrue = rng.integers(-2, 3, size=xs + ys).astype(float) / 2.0
     y = np.tensordot(X, Wtrue, axes=(list(range(1, X.ndim)), list(range(len(xs))))) + 0.1 * rng.standard_normal((n,) + ys)
@@ -49,6 +49,29 @@ def draw_reg(c, seed):
     Xnew = np.concatenate([rng.integers(-3, 4, size=(m,) + xs).astype(float),
                            np.eye(F).reshape((F,) + xs)], axis=0)
     return X, y, Xnew, int(rng.integers(0, 2**31 - 1))
+
+
+REGOPT = {"tight": (1e-9, 40, 0), "loose": (1e-2, 40, 1), "cap": (1e-9, 2, 2)}          # tol, n_iter_max, id
+PLSOPT = {"default": (1e-9, 200, 0), "tol2": (1e-2, 200, 1), "tol1": (1e-1, 200, 2), "cap": (1e-9, 2, 3)}
+
+
+def data_form(a, form):
+    """The same integer-valued samples in another dtype / memory layout."""
+    a = np.asarray(a, dtype=float)
+    if form == "uint8":
+        return np.abs(a).astype(np.uint8)
+    if form in ("float32", "int64", "int32"):
+        return a.astype(form)
+    if form == "fortran":
+        return np.asfortranarray(a)
+    if form == "strided":              # every other element of a doubled last axis: non-contiguous view
+        big = np.zeros(a.shape[:-1] + (a.shape[-1] * 2,))
+        big[..., ::2] = a
+        return big[..., ::2]
+    raise ValueError(form)
+
+
+REG_FORMS = ["float32", "int64", "int32", "uint8", "fortran", "strided"]
 
 
 def exec_reg(case):
@@ -60,18 +83,19 @@ def exec_reg(case):
     c = case["cfg"]
     X, y, Xnew, rs = draw_reg(c, case["seed"])
     ev = {"id": case["id"], "kind": "reg", "cfg": c, "xnew": it(Xnew)}
-    blank = {"weight": EMPTY, "pred": EMPTY, "vec": EMPTY, "dense": EMPTY, "factors": {"fs": [], "w": []}}
+    blank = {"weight": EMPTY, "pred": EMPTY, "vec": EMPTY, "dense": EMPTY, "factors": {"fs": [], "w": []}, "forms": []}
+    tol, nmax, _ = REGOPT[c["opt"]]
     try:
         if c["model"] == "cp":
-            est = CPRegressor(weight_rank=c["rank"], reg_W=c["reg"] / 10.0, n_iter_max=40, tol=1e-9, random_state=rs, verbose=0)
+            est = CPRegressor(weight_rank=c["rank"], reg_W=c["reg"] / 10.0, n_iter_max=nmax, tol=tol, random_state=rs, verbose=0)
         else:
-            est = TuckerRegressor(weight_ranks=list(c["ranks"]), reg_W=c["reg"] / 10.0, n_iter_max=40, tol=1e-9, random_state=rs, verbose=0)
+            est = TuckerRegressor(weight_ranks=list(c["ranks"]), reg_W=c["reg"] / 10.0, n_iter_max=nmax, tol=tol, random_state=rs, verbose=0)
         est.fit(tl.tensor(X), tl.tensor(y))
     except Exception as ex:
         ev.update(blank)
         ev["fit"] = {"raised": True, "exc": type(ex).__name__, "msg": str(ex)[:120]}
         return ev
-    ev["fit"] = {"raised": False, "n_iter": int(est.n_iterations_)}
+    ev["fit"] = {"raised": False, "n_iter": int(est.n_iterations_), "exit": "cap" if int(est.n_iterations_) >= nmax else "converged"}
     try:
         ev["weight"] = qt(est.weight_tensor_)
         ev["vec"] = qt(est.vec_W_)
@@ -84,6 +108,18 @@ def exec_reg(case):
             ev["factors"] = {"fs": [qt(f) for f in fs], "core": qt(G)}
             ev["dense"] = qt(tucker_to_tensor((G, fs)))
         ev["pred"] = qt(est.predict(tl.tensor(Xnew)))
+        # the same kind of samples in other dtypes / layouts: 4 random samples + the last one-hot sample
+        sub = np.concatenate([Xnew[:4], Xnew[-1:]], axis=0)
+        forms = []
+        for form in REG_FORMS:
+            xf = data_form(sub, form)
+            run = {"form": form, "x": it(xf), "raised": False, "pred": EMPTY}
+            try:
+                run["pred"] = qt(est.predict(tl.tensor(xf)))
+            except Exception as ex:
+                run.update(raised=True, exc=type(ex).__name__)
+            forms.append(run)
+        ev["forms"] = forms
     except Exception as ex:
         for k, v in blank.items():
             ev.setdefault(k, v)
@@ -95,7 +131,7 @@ def exec_reg(case):
 def draw_pls(c, seed):
     """Well separated synthetic data: orthonormal scores, strengths 6 / 3 / 1.5, small noise."""
     xs, n, ny = tuple(c["xs"]), c["n"], c["ny"]
-    rng = _rng(seed, 31, n, ny, c["nc"], c["k"], *xs)
+    rng = _rng(seed, 31, n, ny, c["nc"], c["k"], PLSOPT[c["opt"]][2], *xs)
     K = 3
     T_, _ = np.linalg.qr(rng.standard_normal((n, K)))
     sig = np.array([6.0, 3.0, 1.5])
@@ -121,29 +157,55 @@ def draw_pls(c, seed):
     return X, Y, Xt, C, yoff, perm
 
 
-def _fit_pls(c, X, Y, Xtrain_for_transform, Xt):
-    import tensorly as tl
+def _new_pls(c):
     from tensorly.regression.cp_plsr import CP_PLSR
+    tol, nmax, _ = PLSOPT[c["opt"]]
+    return CP_PLSR(c["nc"], tol=tol, n_iter_max=nmax)
+
+
+def _fit_pls(c, X, Y, Xtrain_for_transform, Xt, extra=False):
+    import tensorly as tl
     blank = {"scores": EMPTY, "transform": EMPTY, "loads": [], "yload": EMPTY, "pred": EMPTY}
     try:
-        est = CP_PLSR(c["nc"], n_iter_max=200).fit(tl.tensor(X.copy()), tl.tensor(Y.copy()))
+        est = _new_pls(c).fit(tl.tensor(X.copy()), tl.tensor(Y.copy()))
         out = {"raised": False,
                "scores": qt(est.X_factors[0]),
                "loads": [qt(f) for f in est.X_factors[1:]],
                "yload": qt(est.Y_factors[1]),
                "transform": qt(est.transform(tl.tensor(Xtrain_for_transform.copy()))),
                "pred": qt(est.predict(tl.tensor(Xt.copy())))}
-        return out
     except Exception as ex:
         blank.update({"raised": True, "exc": type(ex).__name__, "msg": str(ex)[:120]})
-        return blank
+        return (blank, {"raised": True}) if extra else blank
+    if not extra:
+        return out
+    x = {"raised": False, "forms": []}
+    try:
+        x["yscores"] = qt(est.Y_factors[0])
+        Xa, Ya = tl.tensor(X.copy()), tl.tensor(Y.copy())
+        est.transform(Xa, Ya)
+        xt, yt = est.transform(Xa, Ya)          # second query with the very same arrays: still the fitted scores
+        x["xt"], x["yt"] = qt(xt), qt(yt)
+        ftx, fty = _new_pls(c).fit_transform(tl.tensor(X.copy()), tl.tensor(Y.copy()))
+        x["ftx"], x["fty"] = qt(ftx), qt(fty)
+        for form in ("fortran", "strided"):
+            run = {"form": form, "raised": False, "transform": EMPTY, "pred": EMPTY}
+            try:
+                run["transform"] = qt(est.transform(tl.tensor(data_form(X, form))))
+                run["pred"] = qt(est.predict(tl.tensor(data_form(Xt, form))))
+            except Exception as ex:
+                run.update(raised=True, exc=type(ex).__name__)
+            x["forms"].append(run)
+    except Exception as ex:
+        x = {"raised": True, "exc": type(ex).__name__, "msg": str(ex)[:120]}
+    return out, x
 
 
 def exec_pls(case):
     c = case["cfg"]
     X, Y, Xt, C, yoff, perm = draw_pls(c, case["seed"])
     ev = {"id": case["id"], "kind": "pls", "cfg": c, "perm": [int(p) for p in perm], "yoff": yoff, "mtest": int(Xt.shape[0])}
-    ev["base"] = _fit_pls(c, X, Y, X, Xt)
+    ev["base"], ev["extra"] = _fit_pls(c, X, Y, X, Xt, extra=True)
     ev["shiftx"] = _fit_pls(c, X + C, Y, X + C, Xt + C)          # constant tensor added to every sample (train and new)
     ev["shifty"] = _fit_pls(c, X, Y + float(yoff), X, Xt)        # constant added to Y: predictions move by the same offset
     ev["permfit"] = _fit_pls(c, X[perm], Y[perm], X[perm], Xt)   # samples permuted
@@ -180,6 +242,12 @@ def run(chk, opts):
         byid[e.get("id")] = e
         if "cfg" in e:
             chk.distinct.add(e["id"])
+    exits = {}
+    for e in events:
+        if e.get("kind") == "reg":
+            key = "%s/%s/%s" % (e["cfg"]["model"], e["cfg"]["opt"], "raised" if e["fit"]["raised"] else e["fit"]["exit"])
+            exits[key] = exits.get(key, 0) + 1
+    chk.notes["fit_exits"] = exits          # both exit paths of the fitting loops are exercised
     for kind in ("reg", "pls"):
         for e in events:
             if e.get("kind") == kind and len(str(e)) < 2800:
